@@ -1,0 +1,15 @@
+//! Verification hooks, compiled only with the `verif-hooks` feature.
+
+/// Environment variable that replaces the scheme and authority of the session server URL, so
+/// that the request of the real adapter can be captured by a plain-HTTP mock on loopback.
+pub const SESSION_BASE_ENV: &str = "PASSAGE_VERIF_SESSION_BASE";
+
+const SESSION_BASE: &str = "https://sessionserver.mojang.com";
+
+/// Rebases a session server URL onto the configured mock base. Path and query are untouched.
+pub fn rebase(url: &str) -> String {
+    match (std::env::var(SESSION_BASE_ENV), url.strip_prefix(SESSION_BASE)) {
+        (Ok(base), Some(rest)) => format!("{base}{rest}"),
+        _ => url.to_string(),
+    }
+}
